@@ -134,7 +134,8 @@ def impose_at(h):
     h.check('input-vector-not-modified', 'seq_eq(x, x0)', x=x, x0=x0)
 
 
-MASKS = [((0, 1),), ((0, 1), (0, 2)), ((0, 1), (3, 1)), ((0, 1), (2, 3)), ((0, 1), (3, 1), (2, 4)), ((1, 2), (2, 3))]
+MASKS = [((0, 1),), ((0, 1), (0, 2)), ((0, 1), (3, 1)), ((0, 1), (2, 3)), ((0, 1), (3, 1), (2, 4)), ((1, 2), (2, 3)),
+         ((0, 1), (2, 3), (1, 3)), ((0, 1), (2, 3), (1, 2)), ((0, 1), (2, 3), (0, 2))]     # two groups joined by a later pair
 
 
 @contract('C16/constraints.impose_as', ['C16', 'C11'], K + 'impose_as.dec.func', samples=200)
@@ -175,3 +176,57 @@ def impose_as(h):
     rest = [q for q in range(n) if q not in comp]
     h.check('entries-in-no-pair-unchanged', ' and '.join('y[%d] == x0[%d]' % (q, q) for q in rest) or 'True', y=y, x0=x0)
     h.check('input-vector-not-modified', 'seq_eq(x, x0)', x=x, x0=x0)
+
+
+def _components(pairs):
+    parent = {}
+
+    def find(a):
+        while parent.setdefault(a, a) != a:
+            a = parent[a]
+        return a
+    for a, b in pairs:
+        ra, rb = find(a), find(b)
+        if ra != rb:
+            parent[rb] = ra
+    comps = {}
+    for v in parent:
+        comps.setdefault(find(v), set()).add(v)
+    return list(comps.values())
+
+
+def _pair_lists():
+    import itertools
+    import os
+    idx = range(5)
+    und = [(i, j) for i in idx for j in idx if i < j]
+    out = [(p,) for p in und] + list(itertools.product(und, repeat=2))
+    if os.environ.get('VERIF_TIER') == 'thorough':
+        allp = [(i, j) for i in idx for j in idx if i != j]
+        out += list(itertools.product(und, repeat=3)) + [a + b for a in itertools.product(allp[:12], repeat=2) for b in itertools.product(und[:5], repeat=2)][:3000]
+    else:
+        # every list of three pairs over four indices, both orientations of the last pair, plus merges of two groups by a fourth pair
+        u4 = [(i, j) for i in range(4) for j in range(4) if i < j]
+        out += [(a, b, c) for a in u4 for b in u4 for c in u4 + [(j, i) for i, j in u4]]
+        out += [((0, 1), (2, 3), (4, 0), c) for c in und] + [((0, 1), (2, 3), c, (4, 1)) for c in und]
+    return out
+
+
+@contract('C16/tools.connected', ['C16', 'C11'], T + 'connected', native=False)
+def connected(h):
+    """connected(pairs) groups the indices by the connected components of the pair graph: one key per component, the
+    key's set holds exactly the OTHER members of its component (impose_as / CollapseAs tie every member to the key)"""
+    if not h.is_sym():
+        h.unsupported('symbolic only (inputs are enumerated concrete pair lists)')
+    pairs = h.choice('pairs', _pair_lists())
+    r = h.call(h.get(T + 'connected'), h.clist([h.tup(a, b) for a, b in pairs]))
+    cell = h.st.heap[r] if not isinstance(r, dict) else r
+    got = []
+    for k, v in cell.items():
+        members = set(h.st.heap[v]) if not isinstance(v, (set, frozenset)) else set(v)
+        got.append((k, members))
+    comps = _components(pairs)
+    ok_keys = all(sum(1 for k, _ in got if k in c) == 1 for c in comps) and len(got) == len(comps)
+    ok_members = all(any(k in c and m == c - {k} for c in comps) for k, m in got)
+    h.check('one-key-per-connected-component', 'ok', ok=ok_keys)
+    h.check('each-keys-set-is-the-rest-of-its-component', 'ok', ok=ok_members)
